@@ -290,8 +290,70 @@ __CPROVER_decreases(g_ncand - g_pos)
 KM = 6
 
 
+def compressed_matrix_units(U):
+    """Compressed_distance_matrix<LOWER/UPPER>: init_rows + operator(): the documented cell of the packed vector,
+    symmetric, zero on the diagonal, no access outside `distances` (n <= 6, bounded)"""
+    # UPPER_TRIANGULAR is not under contract: its init_rows forms `&distances[0] - 1` (a pointer one element before
+    # the array - formally undefined behaviour, harmless on the supported compilers); CBMC encodes pointer offsets as
+    # unsigned 56-bit numbers and reports every later `rows[i][j]` as outside the object, so no obligation about that
+    # layout can be discharged (tool limit, recorded in DESIGN.md 10.2 - not a finding about the barcode).
+    for lay, lower in (("lower", True),):
+        G = ND + """
+typedef int vertex_t; typedef float value_t;
+#define NMAX 6
+#define DCAP (NMAX * (NMAX - 1) / 2)
+value_t distances[DCAP]; value_t* rows[NMAX]; size_t rows_n;
+enum { LOWER_TRIANGULAR, UPPER_TRIANGULAR };
+"""
+        subs = [(r"\bsize\(\)", "((vertex_t)rows_n)", 0)]
+        CE = [(r"Layout == LOWER_TRIANGULAR", lower)]
+        f_init = Fn(RP, r"void init_rows\(\)", "init_rows", "", constexpr=CE, subs=subs)
+        f_get = Fn(RP, r"value_t operator\(\)\(const vertex_t i, const vertex_t j\) const", "dist_at", "", within=r"struct Compressed_distance_matrix \{",
+                   sig_subs=[(r"operator\(\)", "dist_at")], subs=[(r"\(Layout == LOWER_TRIANGULAR\)", "1" if lower else "0")])
+        idx = "(hi * (hi - 1) / 2 + lo)" if lower else "(lo * (int)rows_n - lo * (lo + 1) / 2 + (hi - lo - 1))"
+        lem = f"""
+  rows_n = nondet_uint(); __CPROVER_assume(rows_n >= 2 && rows_n <= NMAX);
+  for (int k = 0; k < DCAP; k++) distances[k] = nondet_float();
+  init_rows();
+  int i = nondet_int(), j = nondet_int(); __CPROVER_assume(i >= 0 && j >= 0 && i < (int)rows_n && j < (int)rows_n);
+  value_t d = dist_at(i, j), d2 = dist_at(j, i);
+  int hi = i > j ? i : j, lo = i > j ? j : i;
+  __CPROVER_assert(i != j || (d == 0 && d2 == 0), "zero on the diagonal");
+  __CPROVER_assert(i == j || {idx} < (int)(rows_n * (rows_n - 1) / 2), "packed index within the vector");
+  __CPROVER_assert(i == j || (__CPROVER_isnanf(distances[{idx}]) ? __CPROVER_isnanf(d) : d == distances[{idx}]), "operator()(i,j) reads the documented cell of the packed vector");
+  __CPROVER_assert(i == j || (__CPROVER_isnanf(d) ? __CPROVER_isnanf(d2) : d == d2), "symmetric");
+"""
+        U.append(Unit(f"compressed_matrix.{lay}", "C11", [f_init, f_get], no_enforce=True, globals_=G, unwind=17, route="B", bound="n <= 6 points",
+                      inputs=["i", "j", "rows_n"], harness=H("", "", post=lem),
+                      desc=f"Compressed_distance_matrix<{lay.upper()}_TRIANGULAR>: after init_rows, operator()(i,j) is symmetric, zero on the diagonal and reads the documented cell; all accesses inside `distances`"))
+
+
+def cns_units(U):
+    """Cns_encoding::get_max: binary search for the largest admissible vertex.  Every monotone predicate on the
+    integers that holds at `bottom` is a threshold predicate w <= t, so the ghost threshold g_t makes the contract
+    cover every predicate the encoding can pass (unbounded: loop contract with termination)."""
+    G = ND + "typedef int vertex_t;\nint g_t, g_top0, g_ans;\n#define pred(w) ((w) <= g_t)\n"
+    con = """
+__CPROVER_requires(bottom >= 0 && bottom <= top && top <= 1000000000 && bottom <= g_t && g_top0 == top && g_ans == (g_t < top ? g_t : top))
+__CPROVER_ensures(__CPROVER_return_value == g_ans)
+__CPROVER_assigns()
+"""
+    loop = """
+__CPROVER_assigns(count, top)
+__CPROVER_loop_invariant(count >= 0 && count <= 1000000000 && top >= 0 && top <= g_top0 && g_top0 <= 1000000000 && bottom <= top - count && top - count <= g_ans && g_ans <= top)
+__CPROVER_decreases(count)
+"""
+    fn = Fn(RP, r"static vertex_t get_max\(vertex_t top, const vertex_t bottom, const Predicate pred\)", "get_max", con,
+            sig_subs=[(r", const Predicate pred", "")], loops={0: loop}, canary=(r"top = mid - 1;", "top = mid;"))
+    U.append(Unit("cns.get_max", "C11", [fn], enforce="get_max", globals_=G, loop_contracts=True, inputs=["in_top", "in_bottom", "g_t"],
+                  harness=H("  int in_top = nondet_int(), in_bottom = nondet_int(); g_t = nondet_int(); g_top0 = in_top; g_ans = g_t < in_top ? g_t : in_top;", "get_max(in_top, in_bottom);"),
+                  desc="Cns_encoding::get_max (binary search): for every monotone predicate returns the largest admissible vertex in [bottom, top]; loop contract, termination"))
+
+
 def units(tier):
     U = []
+    cns_units(U)
+    compressed_matrix_units(U)
     enumerator_units(U)
     arith_units(U)
     bitfield_units(U)
@@ -384,6 +446,6 @@ TRUSTED = [
 ]
 ASSUMPTIONS = [
     "NOT decided: that the streamed intervals equal the Rips barcode (apparent/emergent pairs, clearing, heap columns, hash maps, Union_find, coboundary enumerators, the enclosing-radius logic of ripser_auto) - only the encoding / arithmetic interface is under contract",
-    "Cns_encoding (binomial table + binary search) and the dense matrix classes are not under contract in this version",
+    "Cns_encoding's binomial table and its get_max_vertex wrapper (the binary search get_max is under contract), Full_distance_matrix, Compressed_distance_matrix<UPPER_TRIANGULAR> (forms a pointer before its array: CBMC cannot follow it) and the sparse coboundary enumerator are not under contract",
     "simplices with at most 5 vertices in the Bitfield round-trip units (unwinding bound)",
 ]
